@@ -446,6 +446,7 @@ def sel_setup(I):
 def s_select(I, recv, args, kw):
     """TRUSTED select.select(rlist, wlist, xlist[, timeout]): returns sublists of the lists passed in (ready ones)"""
     I.st.trusted_used.add('select.select returns subsets of the descriptor lists it was given, or raises ValueError/TypeError/OSError')
+    I.st.ghost.setdefault('SELECTS', []).append(list(args))
     c = I.st.choice(2, 'select')
     if c == 1:
         lib.raise_(I, 'OSError', VInt(4))
@@ -479,20 +480,35 @@ def sel_post(I, outcome, ctx):
         I.oblige('raises_only_OSError', z3.BoolVal(v.cls == 'OSError'), detail='escaping %s' % v.cls)
         return
     cover(I, 'return')
+    # C09 / C03: the kernel wait is the event's time_left (untimed only when nothing is pending: time_left < 0)
+    tl = I.fz(ctx['args']['event'], '_time_left')
+    sels = I.st.ghost.get('SELECTS', [])
+    I.oblige('at_most_one_kernel_wait_per_visit', z3.BoolVal(len(sels) <= 1), detail='%d select() calls' % len(sels))
+    for a in sels:
+        if len(a) < 4:
+            cover(I, 'untimed')
+            I.oblige('wait_bounded_by_time_left', tl < 0, detail='an untimed select() although time_left >= 0')
+        else:
+            cover(I, 'timed')
+            t = coerce(a[3], Real).t
+            I.oblige('wait_bounded_by_time_left', z3.And(tl >= 0, t <= tl), detail='the select() timeout must not exceed event.time_left')
+            I.oblige('wait_is_not_negative', t >= 0)
 
 
-SPECS.append(FucSpec(
-    'C10', FILE, 'Select._generate_events', sel_setup, sel_post, fields=dict(P_FIELDS, _time_left=Real),
+for _prop in ('C10', 'C09', 'C03'):
+  SPECS.append(FucSpec(
+    _prop, FILE, 'Select._generate_events', sel_setup, sel_post, fields=dict(P_FIELDS, _time_left=Real),
     calls={'select.select': s_select, 'self.fire': sel_fire, 'self.getTarget': s_getTarget, 'self.isWriting':
            lambda I, r, a, k: VBool(cnt(I, I.local('self'), '_write', a[0]) > 0), 'self.isReading':
            lambda I, r, a, k: VBool(cnt(I, I.local('self'), '_read', a[0]) > 0), 'self._read_ctrl': noop,
            'self._preenDescriptors': noop, '_read': lambda I, r, a, k: VCons('_read', a), '_write': lambda I, r, a, k: VCons('_write', a)},
     getattr_hooks={'time_left': lambda I, o: VReal(I.fz(o, '_time_left'))},
     loops={0: LoopSpec(inv=[('true', lambda I: z3.BoolVal(True))]), 1: LoopSpec(inv=[('true', lambda I: z3.BoolVal(True))])},
-    cover=['return', 'emitted_read', 'emitted_write'],
+    cover=['return', 'emitted_read', 'emitted_write', 'timed', 'untimed'],
     clause='Select._generate_events: every emitted _read/_write is for a descriptor select reported and that is (still) registered '
-           'for that role, addressed to its target; the control pipe never produces an event',
-))
+           'for that role, addressed to its target; the control pipe never produces an event; the select() wait is bounded by '
+           'event.time_left (untimed only when time_left < 0)',
+  ))
 
 
 # ----------------------------------------------------------------------------- Select._preenDescriptors: closed descriptors go
@@ -605,3 +621,175 @@ SPECS.append(FucSpec(
     clause='Select._preenDescriptors: every listed descriptor select rejects (ValueError, TypeError or OSError) is discarded, the '
            'others keep their registration, and no rejection escapes (closed descriptors produce no further events and do not '
            'blind the poller)'))
+
+
+# ----------------------------------------------------------------------------- Poll/EPoll._generate_events: the kernel wait and the hand-over
+# C09 "the idle loop never sleeps past the earliest expiry" and C03 "never stays blocked ... without needing any timeout to expire"
+# both rest on how long the poller lets the kernel block: the wait handed to poll()/epoll.poll() must be the event's time_left
+# (an untimed wait only when time_left < 0 = "nothing pending").  C10's "iff registered and ready" additionally needs every pair the
+# kernel reports to reach _process exactly once, and an interrupted wait (EINTR) to be a no-op instead of an error.
+GE_FIELDS = dict(P_FIELDS, _time_left=Real)
+PAIR = Tup(Int, Int)
+
+
+def ge_setup(kind):
+    def setup(I):
+        self = obj(I, 'self', kind)
+        event = obj(I, 'event', 'generate_events')
+        k = kernel(I, self)
+        I.assume(z3.And(k.t != core.null(), k.t != self.t, event.t != self.t, event.t != k.t))
+        I.st.ghost['LL'] = sym(I, 'reported', List(PAIR))
+        I.assume(I.st.ghost['LL'].lo <= I.st.ghost['LL'].hi)
+        I.st.ghost['TL'] = I.fz(event, '_time_left')
+        I.st.ghost['POLLS'] = []
+        I.st.ghost['PROC'] = []
+        I.st.inputs['event.time_left'] = I.st.ghost['TL']
+        return {'self': self, 'event': event}
+    return setup
+
+
+def s_kernel_poll(I, recv, args, kw):
+    """TRUSTED select.poll.poll([ms]) / select.epoll.poll([s]): blocks at most the given time (for ever without one), returns a list of
+    (number, event mask) pairs, or raises OSError (EINTR when a signal arrives)"""
+    I.st.trusted_used.add('poll.poll(ms) / epoll.poll(s) block at most the time given (without an argument: until something is ready), '
+                          'return (number, mask) pairs or raise OSError (EINTR on a signal)')
+    I.st.ghost['POLLS'].append(list(args))
+    c = I.st.choice(3, 'kernel_poll')
+    if c == 1:
+        import errno as E
+        cover(I, 'eintr')
+        I.st.ghost['ERRNO'] = E.EINTR
+        lib.raise_(I, 'OSError', VInt(E.EINTR))
+    if c == 2:
+        cover(I, 'oserror')
+        I.st.ghost['ERRNO'] = 9
+        lib.raise_(I, 'OSError', VInt(9))
+    return I.st.ghost['LL']
+
+
+def s_ge_process(I, recv, args, kw):
+    I.st.ghost['PROC'].append(list(args))
+    return NONE
+
+
+def ge_entry(I):
+    """the loop runs over the list the kernel returned - all of it (a slice, a filter or a copy that drops pairs loses readiness)"""
+    it, ll = I.frame.env['__iter0'], I.st.ghost['LL']
+    same = isinstance(it, VList) and len(it.arrs) == len(ll.arrs)
+    I.oblige('every_reported_pair_is_visited', z3.And(it.lo == ll.lo, it.hi == ll.hi, *[a == b for a, b in zip(it.arrs, ll.arrs)])
+             if same else z3.BoolVal(False), detail='the hand-over loop must iterate over exactly the pairs poll() returned')
+
+
+def ge_body(I):
+    I.st.ghost['PROC'] = []
+
+
+def ge_iter(I):
+    """end of the arbitrary iteration k: the k-th reported pair went to _process, once, unchanged"""
+    proc = I.st.ghost['PROC']
+    ll = I.st.ghost['LL']
+    k = I.frame.env['__idx0'].t - 1
+    I.oblige('each_reported_pair_is_processed_exactly_once', z3.BoolVal(len(proc) == 1), detail='%d _process calls in one iteration' % len(proc))
+    if len(proc) == 1 and len(proc[0]) == 2:
+        cover(I, 'processed')
+        pair = ll.at(k)
+        I.oblige('the_pair_processed_is_the_pair_reported',
+                 z3.And(coerce(proc[0][0], Int).t == pair.items[0].t, coerce(proc[0][1], Int).t == pair.items[1].t))
+
+
+def ge_post(kind, scale):
+    def post(I, outcome, ctx):
+        kind_, v = outcome
+        g = I.st.ghost
+        tl = g['TL']
+        polls = g['POLLS']
+        if kind_ == 'raise':
+            cover(I, 'raise')
+            I.oblige('an_interrupted_wait_is_not_an_error', z3.BoolVal(g.get('ERRNO') != 4),
+                     detail='EINTR from the kernel wait escaped as %s' % v.cls)
+            # which exception a failed wait surfaces as is not the property's business (EPoll turns a kernel error other than EINTR into
+            # an UnboundLocalError - noted in DESIGN 10.9, outside the statements); that nothing escapes a wait that did NOT fail is
+            I.oblige('nothing_escapes_a_wait_that_succeeded', z3.BoolVal(g.get('ERRNO') is not None), detail='escaping %s' % v.cls)
+            I.oblige('a_failed_wait_reports_nothing', z3.BoolVal(len(g['PROC']) == 0))
+            return
+        cover(I, 'return')
+        I.oblige('one_kernel_wait_per_visit', z3.BoolVal(len(polls) == 1), detail='%d poll() calls' % len(polls))
+        for a in polls:
+            if len(a) == 0:
+                cover(I, 'untimed')
+                I.oblige('wait_bounded_by_time_left', tl < 0,
+                         detail='an untimed kernel wait although time_left >= 0: the loop sleeps past the earliest timer expiry / past the '
+                                'moment a foreign fire() asked for')
+            else:
+                cover(I, 'timed')
+                t = coerce(a[0], Real).t
+                I.oblige('wait_bounded_by_time_left', z3.And(tl >= 0, t <= scale * tl),
+                         detail='the kernel wait must not exceed event.time_left (%s)' % ('milliseconds' if scale != 1 else 'seconds'))
+                I.oblige('wait_is_not_negative', t >= 0, detail='a negative timeout means "block for ever" to poll()')
+        if g.get('ERRNO') is not None:
+            I.oblige('a_failed_wait_reports_nothing', z3.BoolVal(len(g['PROC']) == 0))
+            I.oblige('only_an_interrupted_wait_is_swallowed', z3.BoolVal(g.get('ERRNO') == 4),
+                     detail='a kernel error other than EINTR was swallowed')
+    return post
+
+
+def ge_replay(kind, scale):
+    def replay(model, ob):
+        tl = model.get('event.time_left')
+        try:
+            tl = float(tl)
+        except Exception:
+            tl = None
+        return '''
+import sys, threading
+from circuits.core import pollers
+from circuits.core.events import generate_events
+kind, scale, grid = %r, %r, [%r, -1, 0, 0.0005, 0.25, 3.0]
+reported = [(1001, 1), (1002, 4), (1003, 1), (1004, 5)]
+bad = []
+for tl in grid:
+    if tl is None:
+        continue
+    class Kernel:
+        def __init__(self): self.calls = []
+        def poll(self, *a): self.calls.append(a); return list(reported)
+        def register(self, *a): pass
+        def unregister(self, *a): pass
+    p = getattr(pollers, kind)()
+    k = Kernel(); p._poller = k
+    seen = []
+    p._process = lambda f, e: seen.append((f, e))
+    ev = generate_events(threading.RLock(), -1)
+    if tl >= 0:
+        ev.reduce_time_left(tl)
+    try:
+        p._generate_events(ev)
+    except Exception as e:
+        bad.append('time_left %%r: %%r escaped' %% (tl, e)); continue
+    if len(k.calls) != 1:
+        bad.append('time_left %%r: %%d kernel waits' %% (tl, len(k.calls))); continue
+    a = k.calls[0]
+    if not a and tl >= 0:
+        bad.append('time_left %%r: untimed kernel wait' %% tl)
+    if a and (tl < 0 or a[0] < 0 or a[0] > scale * tl):
+        bad.append('time_left %%r: kernel wait %%r exceeds it' %% (tl, a[0]))
+    if seen != reported:
+        bad.append('time_left %%r: kernel reported %%r but _process saw %%r' %% (tl, reported, seen))
+for b in bad: print(b)
+sys.exit(1 if bad else 0)
+''' % (kind, scale, tl)
+    return replay
+
+
+for kind, scale in (('Poll', 1000), ('EPoll', 1)):
+    for prop in ('C10', 'C09', 'C03'):
+        SPECS.append(FucSpec(
+            prop, FILE, kind + '._generate_events', ge_setup(kind), ge_post(kind, scale), fields=GE_FIELDS,
+            calls={'self._poller.poll': s_kernel_poll, 'self._process': s_ge_process},
+            getattr_hooks={'time_left': lambda I, o: VReal(I.fz(o, '_time_left'))},
+            loops={0: LoopSpec(inv=[('true', lambda I: z3.BoolVal(True))], entry_hook=ge_entry, body_hook=ge_body, iter_hook=ge_iter)},
+            exc_parents={'OSError': 'Exception', 'UnboundLocalError': 'Exception'}, replay=ge_replay(kind, scale),
+            cover=['return', 'raise', 'eintr', 'oserror', 'timed', 'untimed', 'processed'],
+            clause='%s._generate_events: one kernel wait per visit, bounded by event.time_left (untimed only when time_left < 0); every '
+                   '(number, mask) pair the kernel reports is handed to _process exactly once; EINTR is a no-op, any other kernel error '
+                   'escapes' % kind))
